@@ -268,9 +268,15 @@ func readOperationPack(def Definition, repo repository.RepoData, resolvers entit
 		}
 	}
 
+	if author == nil {
+		// no operations data in the tree, so no author either
+		return nil, fmt.Errorf("operation pack without operations data")
+	}
+
 	// Verify signature if we expect one
 	keys := author.ValidKeysAtTime(fmt.Sprintf(editClockPattern, def.Namespace), editTime)
 	if len(keys) > 0 {
+
 		// this is a *very* convoluted and inefficient way to make OpenPGP accept to check a signature, but anything
 		// else goes against the grain and make it very unhappy.
 		keyring := openpgp.EntityList{}
